@@ -149,6 +149,16 @@ CLAIMED = {
         "variables and checks same geometry => same stream and key, different geometry => different key, key a function of the stream.",
    note="blake2b trusted; marshal treated as opaque but required functional (known finding F7: it is not).",
    ref="5 C16"),
+ "C17": dict(
+   text="TLC checks for every UTC offset -12:00..+14:00 in 15-minute steps x periods x dates on month / year / leap boundaries x "
+        "times around midnight (50 400 states) that the EMS string for the reference instant has the EMS form, parses to valid "
+        "fields and denotes the same instant and offset, and that the civil-date arithmetic used is self-inverse; "
+        "format_time_units_for_ems is run on generated unit strings in six writing styles for every offset and TLC parses the "
+        "returned code points (EmsForm, SameInstant); Convention.to_netcdf + reopen on datasets of every convention: raw units "
+        "attribute in EMS form for the same instant, decoded time instants, convention, polygons and all values identical, no new "
+        "_FillValue attributes.",
+   note="Offsets are written with two hour digits (the reading of one-digit hours differs between cftime and ISO-8601); third-party netCDF I/O trusted.",
+   ref="5 C17"),
  "C19": dict(
    text="TLC checks on the bounded universe that the specification's collection pairs every valid cell's outline with that cell's "
         "value (one patch per valid cell, none for holes) and that a variable with leftover dimensions has no collection; recorded "
